@@ -291,7 +291,40 @@ func (i *yamlInputIter) Next() (any, bool) {
 		i.err = &yamlParseError{i.fname, i.ir.getContents(nil, nil), err}
 		return i.err, true
 	}
-	return v, true
+	return normalizeYAMLNumbers(v), true
+}
+
+// normalizeYAMLNumbers rewrites the numbers in the spellings which YAML allows
+// but JSON does not (+1, 1., .5, 007.5), because numbers are printed as is.
+func normalizeYAMLNumbers(v any) any {
+	switch v := v.(type) {
+	case map[string]any:
+		for k, x := range v {
+			v[k] = normalizeYAMLNumbers(x)
+		}
+	case []any:
+		for i, x := range v {
+			v[i] = normalizeYAMLNumbers(x)
+		}
+	case json.Number:
+		s := strings.TrimPrefix(string(v), "+")
+		sign, exp := "", ""
+		if strings.HasPrefix(s, "-") {
+			sign, s = "-", s[1:]
+		}
+		if i := strings.IndexAny(s, "eE"); i >= 0 {
+			s, exp = s[:i], s[i:]
+		}
+		s, frac, _ := strings.Cut(s, ".")
+		if s = strings.TrimLeft(s, "0"); s == "" {
+			s = "0"
+		}
+		if frac != "" {
+			s += "." + frac
+		}
+		return json.Number(sign + s + exp)
+	}
+	return v
 }
 
 func (i *yamlInputIter) Close() error {
